@@ -27,4 +27,6 @@ class C15(Prop):
         return True
 
 
-ALL = {c.id: c for c in [C15]}
+from .c19 import C19  # noqa: E402
+
+ALL = {c.id: c for c in [C15, C19]}
